@@ -1780,6 +1780,20 @@ impl Db {
 		self.inner.clean_logs()?;
 		Ok(())
 	}
+
+	/// Verification hook (H3): enact at most one log record (one call of the enact step, where
+	/// the `instrumentation` stepping API loops to the end of the log file). Returns whether a
+	/// record was enacted. Only compiled with `--cfg parity_db_verif`.
+	#[cfg(parity_db_verif)]
+	pub fn verif_enact_one(&self) -> Result<bool> {
+		self.inner.enact_logs(false)
+	}
+
+	/// Verification hook (H3): number of fully read log files waiting for cleanup.
+	#[cfg(parity_db_verif)]
+	pub fn verif_num_dirty_logs(&self) -> usize {
+		self.inner.log.num_dirty_logs()
+	}
 }
 
 impl Drop for Db {
